@@ -380,20 +380,23 @@ macro_rules! cat_cfg {
                                 }
                             }
                             let ki32 = |s: &i32| *s as i64;
+                            // symbols through an iterator whose length the callee cannot know in advance (std takes a
+                            // different `extend` / `zip` path for exactly sized slice iterators)
+                            let opaque_symbols = syms_in.len() % 2 == 1 || n % 3 == 0;
                             let ctor = src.below(2);
                             let what = format!("non-contiguous {} {} with {} symbols", if ctor == 0 { "_fast" } else { "_perfect" }, what, syms_in.len());
                             note!(ctx, "symbols {}", debug_list(&syms_in));
                             let be = match (ctor, use_f32) {
-                                (0, true) => build(|| NonContiguousCategoricalEncoderModel::<i32, Pr, P>::from_symbols_and_floating_point_probabilities_fast(syms_in.iter().cloned(), &tab32, norm32)),
-                                (0, false) => build(|| NonContiguousCategoricalEncoderModel::<i32, Pr, P>::from_symbols_and_floating_point_probabilities_fast(syms_in.iter().cloned(), &tab64, norm64)),
-                                (_, true) => build(|| NonContiguousCategoricalEncoderModel::<i32, Pr, P>::from_symbols_and_floating_point_probabilities_perfect(syms_in.iter().cloned(), &tab32)),
-                                (_, false) => build(|| NonContiguousCategoricalEncoderModel::<i32, Pr, P>::from_symbols_and_floating_point_probabilities_perfect(syms_in.iter().cloned(), &tab64)),
+                                (0, true) => build(|| if opaque_symbols { NonContiguousCategoricalEncoderModel::<i32, Pr, P>::from_symbols_and_floating_point_probabilities_fast(syms_in.iter().cloned().filter(|_| true), &tab32, norm32) } else { NonContiguousCategoricalEncoderModel::<i32, Pr, P>::from_symbols_and_floating_point_probabilities_fast(syms_in.iter().cloned(), &tab32, norm32) }),
+                                (0, false) => build(|| if opaque_symbols { NonContiguousCategoricalEncoderModel::<i32, Pr, P>::from_symbols_and_floating_point_probabilities_fast(syms_in.iter().cloned().filter(|_| true), &tab64, norm64) } else { NonContiguousCategoricalEncoderModel::<i32, Pr, P>::from_symbols_and_floating_point_probabilities_fast(syms_in.iter().cloned(), &tab64, norm64) }),
+                                (_, true) => build(|| if opaque_symbols { NonContiguousCategoricalEncoderModel::<i32, Pr, P>::from_symbols_and_floating_point_probabilities_perfect(syms_in.iter().cloned().filter(|_| true), &tab32) } else { NonContiguousCategoricalEncoderModel::<i32, Pr, P>::from_symbols_and_floating_point_probabilities_perfect(syms_in.iter().cloned(), &tab32) }),
+                                (_, false) => build(|| if opaque_symbols { NonContiguousCategoricalEncoderModel::<i32, Pr, P>::from_symbols_and_floating_point_probabilities_perfect(syms_in.iter().cloned().filter(|_| true), &tab64) } else { NonContiguousCategoricalEncoderModel::<i32, Pr, P>::from_symbols_and_floating_point_probabilities_perfect(syms_in.iter().cloned(), &tab64) }),
                             };
                             let bd = match (ctor, use_f32) {
-                                (0, true) => build(|| NonContiguousCategoricalDecoderModel::<i32, Pr, _, P>::from_symbols_and_floating_point_probabilities_fast(syms_in.iter().cloned(), &tab32, norm32)),
-                                (0, false) => build(|| NonContiguousCategoricalDecoderModel::<i32, Pr, _, P>::from_symbols_and_floating_point_probabilities_fast(syms_in.iter().cloned(), &tab64, norm64)),
-                                (_, true) => build(|| NonContiguousCategoricalDecoderModel::<i32, Pr, _, P>::from_symbols_and_floating_point_probabilities_perfect(syms_in.iter().cloned(), &tab32)),
-                                (_, false) => build(|| NonContiguousCategoricalDecoderModel::<i32, Pr, _, P>::from_symbols_and_floating_point_probabilities_perfect(syms_in.iter().cloned(), &tab64)),
+                                (0, true) => build(|| if opaque_symbols { NonContiguousCategoricalDecoderModel::<i32, Pr, _, P>::from_symbols_and_floating_point_probabilities_fast(syms_in.iter().cloned().filter(|_| true), &tab32, norm32) } else { NonContiguousCategoricalDecoderModel::<i32, Pr, _, P>::from_symbols_and_floating_point_probabilities_fast(syms_in.iter().cloned(), &tab32, norm32) }),
+                                (0, false) => build(|| if opaque_symbols { NonContiguousCategoricalDecoderModel::<i32, Pr, _, P>::from_symbols_and_floating_point_probabilities_fast(syms_in.iter().cloned().filter(|_| true), &tab64, norm64) } else { NonContiguousCategoricalDecoderModel::<i32, Pr, _, P>::from_symbols_and_floating_point_probabilities_fast(syms_in.iter().cloned(), &tab64, norm64) }),
+                                (_, true) => build(|| if opaque_symbols { NonContiguousCategoricalDecoderModel::<i32, Pr, _, P>::from_symbols_and_floating_point_probabilities_perfect(syms_in.iter().cloned().filter(|_| true), &tab32) } else { NonContiguousCategoricalDecoderModel::<i32, Pr, _, P>::from_symbols_and_floating_point_probabilities_perfect(syms_in.iter().cloned(), &tab32) }),
+                                (_, false) => build(|| if opaque_symbols { NonContiguousCategoricalDecoderModel::<i32, Pr, _, P>::from_symbols_and_floating_point_probabilities_perfect(syms_in.iter().cloned().filter(|_| true), &tab64) } else { NonContiguousCategoricalDecoderModel::<i32, Pr, _, P>::from_symbols_and_floating_point_probabilities_perfect(syms_in.iter().cloned(), &tab64) }),
                             };
                             // decoder first (encoder may return early)
                             if let Built::Ok(d) = &bd {
@@ -751,11 +754,12 @@ macro_rules! lookup_family {
                     }
                 }
                 let ki32 = |s: &i32| *s as i64;
+                let opaque_symbols = syms_in.len() % 2 == 1 || $n % 3 == 0;
                 let b = match (which, $use_f32) {
-                    (2, true) => build(|| NonContiguousLookupDecoderModel::<i32, $Pr, _, _, $P>::from_symbols_and_floating_point_probabilities_fast(syms_in.iter().cloned(), &$tab32, $norm32)),
-                    (2, false) => build(|| NonContiguousLookupDecoderModel::<i32, $Pr, _, _, $P>::from_symbols_and_floating_point_probabilities_fast(syms_in.iter().cloned(), &$tab64, $norm64)),
-                    (_, true) => build(|| NonContiguousLookupDecoderModel::<i32, $Pr, _, _, $P>::from_symbols_and_floating_point_probabilities_perfect(syms_in.iter().cloned(), &$tab32)),
-                    (_, false) => build(|| NonContiguousLookupDecoderModel::<i32, $Pr, _, _, $P>::from_symbols_and_floating_point_probabilities_perfect(syms_in.iter().cloned(), &$tab64)),
+                    (2, true) => build(|| if opaque_symbols { NonContiguousLookupDecoderModel::<i32, $Pr, _, _, $P>::from_symbols_and_floating_point_probabilities_fast(syms_in.iter().cloned().filter(|_| true), &$tab32, $norm32) } else { NonContiguousLookupDecoderModel::<i32, $Pr, _, _, $P>::from_symbols_and_floating_point_probabilities_fast(syms_in.iter().cloned(), &$tab32, $norm32) }),
+                    (2, false) => build(|| if opaque_symbols { NonContiguousLookupDecoderModel::<i32, $Pr, _, _, $P>::from_symbols_and_floating_point_probabilities_fast(syms_in.iter().cloned().filter(|_| true), &$tab64, $norm64) } else { NonContiguousLookupDecoderModel::<i32, $Pr, _, _, $P>::from_symbols_and_floating_point_probabilities_fast(syms_in.iter().cloned(), &$tab64, $norm64) }),
+                    (_, true) => build(|| if opaque_symbols { NonContiguousLookupDecoderModel::<i32, $Pr, _, _, $P>::from_symbols_and_floating_point_probabilities_perfect(syms_in.iter().cloned().filter(|_| true), &$tab32) } else { NonContiguousLookupDecoderModel::<i32, $Pr, _, _, $P>::from_symbols_and_floating_point_probabilities_perfect(syms_in.iter().cloned(), &$tab32) }),
+                    (_, false) => build(|| if opaque_symbols { NonContiguousLookupDecoderModel::<i32, $Pr, _, _, $P>::from_symbols_and_floating_point_probabilities_perfect(syms_in.iter().cloned().filter(|_| true), &$tab64) } else { NonContiguousLookupDecoderModel::<i32, $Pr, _, _, $P>::from_symbols_and_floating_point_probabilities_perfect(syms_in.iter().cloned(), &$tab64) }),
                 };
                 let m = built_or_return!($ctx, $mode, b, &what);
                 if $hostile {
